@@ -126,6 +126,14 @@ func (d *EpochDriver) synth(height uint64, as *appstate.AppState, sc collector.S
 		}
 		hv := h64(seed, height, e.addr, 'S')
 		ns := opts[hv%uint64(len(opts))]
+		if w.Opt.EpochNoKills && !ns.NewbieOrBetter() && e.id.State != state.Invite {
+			// gentle epochs: nobody loses the status, so that no stake is burnt and the issued
+			// amount is visible undiluted in the ledger delta
+			ns = opts[0]
+			if !ns.NewbieOrBetter() {
+				ns = state.Verified
+			}
+		}
 		if isNode[e.addr] && !ns.NewbieOrBetter() {
 			ns = state.Verified
 			if e.id.State == state.Human {
@@ -232,6 +240,46 @@ func (d *EpochDriver) synth(height uint64, as *appstate.AppState, sc collector.S
 		_, pen := shardOf(e.id).BadAuthors[e.addr]
 		gi.SuccessfulInvites = append(gi.SuccessfulInvites, &types.SuccessfulInvite{Age: age, TxHash: e.id.Inviter.TxHash,
 			EpochHeight: e.id.Inviter.EpochHeight, Address: e.addr, Penalized: pen})
+	}
+	// make sure every reward category has recipients in most epochs (the chain code only sees the
+	// result structures, and the results are arbitrary by the quantifier): invitation results
+	// for the first validated identities even where the ledger has no inviter link
+	var validatedList []common.Address
+	for _, e := range ids {
+		if ns, ok := newStates[e.addr]; ok && ns.NewbieOrBetter() {
+			validatedList = append(validatedList, e.addr)
+		}
+	}
+	if len(validatedList) >= 2 && h64(seed, height, common.Address{}, 'I')%4 != 0 {
+		sr := res[common.ShardId(1)]
+		// an author with more than three rewarded flips (basic + extra flip funds) and a reporter
+		au := validatedList[len(validatedList)-1]
+		if _, bad := sr.BadAuthors[au]; !bad {
+			vr := &types.ValidationResult{NewIdentityState: uint8(newStates[au])}
+			for fi := 0; fi < 5; fi++ {
+				vr.FlipsToReward = append(vr.FlipsToReward, &types.FlipToReward{Cid: []byte{byte(fi), 1, 2}, Grade: types.GradeA, GradeScore: decimal.NewFromInt(int64(2 + fi))})
+			}
+			sr.GoodAuthors[au] = vr
+			if sr.AuthorResults[au] == nil {
+				sr.AuthorResults[au] = &types.AuthorResults{}
+			}
+		}
+		if len(sr.ReportersToRewardByFlip) == 0 {
+			rp := validatedList[len(validatedList)/2]
+			sr.ReportersToRewardByFlip[0] = map[common.Address]*types.Candidate{rp: {Address: rp, NewIdentityState: uint8(newStates[rp])}}
+		}
+		inv := validatedList[0]
+		if _, bad := sr.BadAuthors[inv]; !bad {
+			gi := sr.GoodInviters[inv]
+			if gi == nil {
+				gi = &types.InviterValidationResult{NewIdentityState: uint8(newStates[inv]), PayInvitationReward: true}
+				sr.GoodInviters[inv] = gi
+			}
+			gi.PayInvitationReward = true
+			for k := 1; k < len(validatedList) && k <= 3; k++ {
+				gi.SuccessfulInvites = append(gi.SuccessfulInvites, &types.SuccessfulInvite{Age: uint16(k), Address: validatedList[k], EpochHeight: uint32(k * 7)})
+			}
+		}
 	}
 	return types.TotalValidationResult{IdentitiesCount: count, ShardResults: res, Pools: pools, NonValidatedStakes: nonValidated, Failed: false}
 }
